@@ -268,9 +268,9 @@ func removeCmd(d *DeclSpec, path []string) bool {
 	return rec(&d.Commands, path)
 }
 
-// shrink minimises sc while the judge keeps reporting class. It returns the
+// shrinkBy minimises sc while keep(verdict) holds (same violation class, or the same known finding). It returns the
 // minimised scenario and its verdict.
-func shrink(p Property, sc *Scenario, v *Verdict, budget time.Duration, accept func(*Scenario, *Verdict) bool) (*Scenario, *Verdict, shrinkStats) {
+func shrinkBy(p Property, sc *Scenario, v *Verdict, budget time.Duration, keep func(*Verdict) bool) (*Scenario, *Verdict, shrinkStats) {
 	var st shrinkStats
 	deadline := time.Now().Add(budget)
 	best, bestV := sc, v
@@ -291,7 +291,7 @@ func shrink(p Property, sc *Scenario, v *Verdict, budget time.Duration, accept f
 			}
 			st.Tried++
 			cv := judgeSafely(p, cand)
-			if cv.Trouble == "" && !cv.OK && cv.Class == bestV.Class && (accept == nil || accept(cand, cv)) {
+			if cv.Trouble == "" && keep(cv) {
 				best, bestV = cand, cv
 				bestJSON = mustJSON(best)
 				st.Kept++
